@@ -1,1 +1,8 @@
--- property theorems for C04 (stub)
+/-
+C04 — tables, structs, arrays and buffers behave as maps and sequences.  Property theorems only.
+-/
+import JanetModel.Table.Model
+import JanetModel.Seq.Model
+
+namespace JanetModel.Props.C04
+end JanetModel.Props.C04
